@@ -631,7 +631,7 @@ Proof.
   { destruct HW as [HW|HW]; [left; unfold RECb in *; rewrite F6; exact HW|right].
     eapply XW_keep; [| | | | |exact HW]; auto. apply dout_eq; exact F1. }
   destruct (is_remote_fin_or_later _); [exact HWx|].
-  rewrite F7, F8, Hne.
+  rewrite F7, F8, Hne. cbn [andb].   (* (repair of D6) the flag is `expired && not local-fin` *)
   destruct (pop_expired_mtu_probe (v_segs sx) false _) as [segs1 pe] eqn:Ep.
   assert (Hpe : segs1 = v_segs sx /\ pe <> PeExpired 0 0 /\ forall a b, pe <> PeExpired a b).
   { unfold pop_expired_mtu_probe in Ep. destruct (last_and_init _) as [[init g]|].
